@@ -39,11 +39,18 @@ def main():
     sys.stdout.flush()
 
 
-def launch(doc, hashseed, verif_dir, cwd="/", lc_all="C", timeout=900):
-    """Start a fresh interpreter; collect its answer with `collect` (which retries once on failure)."""
+def launch(doc, hashseed, verif_dir, cwd="/", lc_all="C", timeout=900, home=None):
+    """Start a fresh interpreter; collect its answer with `collect` (which retries once on failure).
+    home: HOME / cache / temp directory of that interpreter (default: a new empty one under the scratch space)."""
     import subprocess
-    args = (doc, hashseed, verif_dir, cwd, lc_all)
+    import tempfile
+    args = (doc, hashseed, verif_dir, cwd, lc_all, timeout, home)
     env = dict(os.environ)
+    if home is None and os.environ.get("HTSIM_PYC"):
+        home = tempfile.mkdtemp(prefix="home-fresh-", dir=os.environ["HTSIM_PYC"])
+    if home:
+        for k in ("HOME", "XDG_CACHE_HOME", "XDG_CONFIG_HOME", "XDG_DATA_HOME", "TMPDIR"):
+            env[k] = home
     env["PYTHONHASHSEED"] = str(hashseed)
     env["LC_ALL"] = lc_all
     env["LANG"] = lc_all
